@@ -22,14 +22,16 @@ ASSUMPTIONS = [
 ]
 
 SHAPES = [None, (2,), (2, 3), (2, 1, 2)]
-KEYS = ["a", "END", "SIZE", "size", "nrows", "BLEND", "x y", "it's", 'q"k', "ключ", "dtype", "e\\n"]
+KEYS = ["a", "END", "SIZE", "size", "nrows", "BLEND", "x y", "it's", 'q"k', "ключ", "dtype", "e\\n", "50%", "%s"]
 VALUES = [
     0, -7, 2 ** 70, 1.5, 1e-300, -0.0, True, None, "", "END", "SIZE = 3", "it's \"q\"\nnew",
     "word " * 60, "x" * 200, b"\x00\xff", b"END", (1,), (), [], {}, [1, [2, {"z": 1.5}]], {"END": 1},
     "  lead", "trail  ", "a\tb", "\\", "é", "{", "#", "\nEND\n", "a\nEND", "END\nb",
+    # printf conversions: the header text must never be used as a format string
+    "100%% clean", "%d", "%5d items", "95% of", "%s%s%s%s", "%",
 ]
 K6 = ["a", "END", "size", "x y", "it's", "ключ"]
-V6 = [0, 1.5, "END", "it's \"q\"\nnew", [1, [2, {"z": 1.5}]], None]
+V6 = [0, 1.5, "END", "it's \"q\"\nnew", [1, [2, {"z": 1.5}]], None, "%d %% %s"]
 NAMES = ["a", "END", "ENDPOINT", "aEND", "SIZE", "Size", "x_1", "é", "END_", "_x", "nrows"]
 WRITERS = ["SFile.write", "sfile.write(fn,d)", "sfile.write(d,fn)", "io.write"]
 READERS = ["sfile.read", "SFile.read", "SFile[:]", "io.read", "Recfile(offset)", "Recfile(offset,nrows)",
